@@ -1218,6 +1218,61 @@ func nearMissHistory(t *testing.T, run *emit.Run, a *addrReg, next *int64) {
 	h.finish(true)
 }
 
+// worthyBoundaryHistory walks isNewSnapshotWorthy's branches on the real keeper: the 1 % float test
+// one raw decimal unit below and exactly at the boundary, a flipped ranking, traits added /
+// permuted / replaced, a re-spelt chain type, accounts added and re-ordered.  Whether each build is
+// stored is decided by the model in Coq (Corr.C10.pre_ok); nothing is expected here.
+func worthyBoundaryHistory(t *testing.T, run *emit.Run, a *addrReg, next *int64) {
+	n0 := chainName(0)
+	h := newHist(t, run, a, next, []string{n0})
+	h.e.nvals = 2
+	big17 := func(x int64, plus int64) *big.Int {
+		v := new(big.Int).Mul(big.NewInt(x), new(big.Int).Exp(big.NewInt(10), big.NewInt(16), nil))
+		return v.Add(v, big.NewInt(plus))
+	}
+	stake := func(x0, p0, x1, p1 int64) {
+		h.stakingSet(map[int]stakeSpec{0: {Status: stakingtypes.Bonded, Tokens: big17(x0, p0)}, 1: {Status: stakingtypes.Bonded, Tokens: big17(x1, p1)}})
+	}
+	h.addChain(n0)
+	h.activateChain(n0)
+	stake(40, 0, 60, 0)
+	a0, a1 := h.acct("evm", n0), h.acct("evm", n0)
+	a1.Traits = []string{"mev"}
+	h.register(0, []rinfo{a0})
+	h.register(1, []rinfo{a1})
+	h.build()            // first: stored
+	stake(41, -1, 59, 1) // fractions move by 10^16-1 raw units
+	h.build()            // not stored
+	stake(41, 0, 59, 0)  // by exactly 10^16
+	h.build()            // stored
+	with := func(i rinfo, traits ...string) rinfo { i.Traits = traits; return i }
+	h.register(1, []rinfo{with(a1, "mev", "fast")})
+	h.build() // stored: number of traits
+	h.register(1, []rinfo{with(a1, "fast", "mev")})
+	h.build() // not stored: same set
+	h.register(1, []rinfo{with(a1, "fast", "fast")})
+	h.build() // stored: "mev" is gone
+	b0 := a0
+	b0.Type = "EVM"
+	h.register(0, []rinfo{b0})
+	h.build() // stored: the key spells the type
+	c0 := h.acct("evm", "chain-9")
+	h.register(0, []rinfo{b0, c0})
+	h.build() // stored: one more account
+	h.register(0, []rinfo{c0, b0})
+	h.build() // not stored: same keys
+	h.register(0, []rinfo{b0, b0})
+	h.build() // stored: same length, but the key of c0 is gone
+	stake(59, 0, 41, 0)
+	h.build() // stored: ranking flipped
+	stake(50, 0, 50, 0)
+	h.build() // stored (9 %)
+	stake(50, 1, 50, -1)
+	h.build() // stored: ranking among formerly equal shares
+	run.Count("directed", fmt.Sprintf("worthy-boundary stored=%d", h.stored))
+	h.finish(true)
+}
+
 func doHistory(t *testing.T, run *emit.Run, a *addrReg, r *rand.Rand, next *int64, nops int) {
 	names := []string{chainName(0), chainName(1), chainName(2)}
 	if r.Intn(4) == 0 { // a chain of its own whose id only looks like another chain's id
@@ -1286,6 +1341,60 @@ func doHistory(t *testing.T, run *emit.Run, a *addrReg, r *rand.Rand, next *int6
 			}
 		}
 		h.register(i, infos)
+	}
+	// reRegisterOp: the validator's registered accounts again, slightly changed (what
+	// isNewSnapshotWorthy's last loop looks at): traits, spelling of the type, order, one dropped / doubled
+	reRegisterOp := func(i int) {
+		es, _ := e.in.ValsetKeeper.GetValidatorChainInfos(e.ctx, valAddr(i))
+		infos := projInfos(a, es)
+		if len(infos) == 0 {
+			registerOp(i, true)
+			return
+		}
+		k := r.Intn(len(infos))
+		switch r.Intn(7) {
+		case 0:
+			infos[k].Traits = append(append([]string{}, infos[k].Traits...), traitPool[r.Intn(len(traitPool))])
+		case 1:
+			if n := len(infos[k].Traits); n > 0 {
+				infos[k].Traits = append([]string{}, infos[k].Traits[:n-1]...)
+			} else {
+				infos[k].Traits = []string{"mev"}
+			}
+		case 2:
+			infos[k].Type = genType(r, isEvm(infos[k].Type))
+		case 3:
+			r.Shuffle(len(infos), func(x, y int) { infos[x], infos[y] = infos[y], infos[x] })
+		case 4:
+			infos = append(infos[:k], infos[k+1:]...)
+		case 5:
+			infos = append(infos, infos[k])
+		default: // unchanged
+		}
+		h.register(i, infos)
+	}
+	// nudgeOp: one bonded validator's stake moves by a fraction of a percent up to a few percent
+	nudgeOp := func() {
+		svs := e.staking()
+		if len(svs) == 0 {
+			return
+		}
+		v := svs[r.Intn(len(svs))]
+		if !v.Bonded || v.Tokens.Sign() <= 0 {
+			stakingOp(false)
+			return
+		}
+		d := new(big.Int).Mul(v.Tokens, big.NewInt(int64(r.Intn(60))))
+		d.Quo(d, big.NewInt(1000))
+		d.Add(d, big.NewInt(int64(r.Intn(3)-1)))
+		nt := new(big.Int).Add(v.Tokens, d)
+		if r.Intn(2) == 0 {
+			nt = new(big.Int).Sub(v.Tokens, d)
+		}
+		if nt.Sign() <= 0 {
+			nt = big.NewInt(1)
+		}
+		h.stakingSet(map[int]stakeSpec{v.Val: {Status: stakingtypes.Bonded, Jailed: v.Jailed, Tokens: nt}})
 	}
 	chainOp := func(c int, kind int) {
 		switch {
@@ -1358,7 +1467,11 @@ func doHistory(t *testing.T, run *emit.Run, a *addrReg, r *rand.Rand, next *int6
 	missingOp()
 	h.build()
 	for k := 0; k < nops; k++ {
-		switch x := r.Intn(21); {
+		switch x := r.Intn(25); {
+		case x >= 23:
+			nudgeOp()
+		case x >= 21:
+			reRegisterOp(r.Intn(e.nvals))
 		case x < 4:
 			stakingOp(false)
 		case x < 7:
@@ -1437,6 +1550,7 @@ func TestCorr(t *testing.T) {
 	}
 	quorumGapHistory(t, run, a, &next)
 	nearMissHistory(t, run, a, &next)
+	worthyBoundaryHistory(t, run, a, &next)
 	nHist := run.N / 5
 	nTr := run.N - nHist
 	for i := 0; i < nTr; i++ {
